@@ -40,6 +40,13 @@ def missing_stream(ck, cases):
                 a, v = ['cls', 'int'], ['int', 1]
             params.append({'ann': a, 'val': v, 'default': (rng.random() < 0.3) or bool(params and params[-1]['default']),
                            'omit': rng.random() < 0.5})
+        if miss < k and rng.random() < 0.5:
+            # the idioms a value-dependent shortcut would key on: `x: list = None` (implicit Optional), empty / falsy defaults
+            params[miss]['val'] = rng.choice([['none'], ['none'], ['list', []], ['tuple', []], ['dict', []], ['str', []], ['int', 0], ['bool', False]])
+            if rng.random() < 0.7:
+                for q in params[miss:]:
+                    q['default'] = True           # a parameter with a default cannot be followed by one without
+                params[miss]['omit'] = rng.random() < 0.7
         out.append({'stream': 'missing', 'obs': 'missing', 'params': params, 'miss': miss, 'bare': rng.choice(CC.BARE_T + CC.BARE_B) if bare_instead else None,
                     'ret_val': rng.choice(G.SCALARS[:8] + [['list', []]]), 'ctx': G.CTX, 'kind': rng.choice(['def', 'def', 'async', 'method'])})
     ck.missing = out
